@@ -19,6 +19,14 @@ if [ $# -gt 0 ]; then PROPS="$*"; else PROPS=$(cat harness/released.txt); fi
 case " $PROPS " in *" C01 "*)
   /venv/bin/python "$ROOT/harness/translate/py2gallina.py" 2> >(grep -v conda >&2) || echo "setup: translator rejected the source (coq/Gen/CombiSchemeGen.v is a non-compiling stub)" >&2 ;;
 esac
+# numeric source-derived models (same scheme): C09 owns coq/Gen/GridGen.v (sparseSpACE/Grid.py), C11 owns
+# coq/Gen/ExtrapolationGen.v (sparseSpACE/Extrapolation.py)
+case " $PROPS " in *" C09 "*)
+  /venv/bin/python "$ROOT/harness/translate/py2gallina.py" --target grid 2> >(grep -v conda >&2) || echo "setup: translator rejected the source (coq/Gen/GridGen.v is a non-compiling stub)" >&2 ;;
+esac
+case " $PROPS " in *" C11 "*)
+  /venv/bin/python "$ROOT/harness/translate/py2gallina.py" --target extrapolation 2> >(grep -v conda >&2) || echo "setup: translator rejected the source (coq/Gen/ExtrapolationGen.v is a non-compiling stub)" >&2 ;;
+esac
 cd "$ROOT/coq"
 find . -name '*.v' | sed 's|^\./||' | sort > .files.new
 if ! cmp -s .files.new .files || [ ! -f Makefile.coq ]; then
@@ -34,6 +42,9 @@ done
 rc=0
 if [ -n "$TARGETS" ]; then
   timeout 3000 make -f Makefile.coq -k -j16 $TARGETS 2>&1 | grep -v '^COQDEP\|^COQC\|conda\|^make' | tail -40
+  mrc=${PIPESTATUS[0]}
+  # a stale .vo next to a failing make is NOT a successful build
+  [ "$mrc" -ne 0 ] && { echo "setup: make failed (rc=$mrc)" >&2; rc=3; }
   for t in $TARGETS; do test -f "$t" || { echo "setup: $t did not build" >&2; rc=3; }; done
 fi
 for p in $PROPS; do
